@@ -57,6 +57,10 @@ Names == {Desc(n, <<MType("T", OddStruct), MMethod("M", OddStruct, OddStruct2), 
                             MType("PingMethods", Struct(<<F("a", Leaf("int"))>>)), MType("PingCall", Struct(<<>>)), MType("ReplyPing", Struct(<<>>)),
                             MError("PingError", <<Struct(<<F("x", Leaf("int"))>>)>>), MMethod("PingIn", Struct(<<>>), Struct(<<>>)), MType("PingOut", Leaf("int")),
                             MMethod("Methods", Struct(<<>>), Struct(<<>>)), MType("Interface", Struct(<<>>))>>)}
+         \* type names that are builtin names in another case; members that differ only in case
+         \cup {Desc("a.b", <<MType("String", Struct(<<F("a", Leaf("string"))>>)), MType("Int", Leaf("int")), MType("Object", Enum(<<"a">>)),
+                            MMethod("M", Struct(<<F("x", Alias("String")), F("y", Alias("Int")), F("z", Maybe(Alias("Object")))>>), Struct(<<F("x", Alias("String"))>>)),
+                            MMethod("Ab", Struct(<<>>), Struct(<<>>)), MMethod("AB", Struct(<<>>), Struct(<<>>)), MError("Abc", <<>>), MError("ABc", <<Struct(<<>>)>>)>>)}
          \* field names that differ only in case (JSON member names are case-sensitive, Go's decoder is not)
          \cup {Desc("a.b", <<MMethod("M", Struct(<<F("ab", Leaf("int")), F("aB", Leaf("int"))>>), Struct(<<F("xy", Leaf("string")), F("xY", Leaf("string")), F("s", Struct(<<F("kk", Leaf("int")), F("kK", Leaf("int"))>>))>>)),
                             MError("E", <<Struct(<<F("ab", Leaf("int")), F("aB", Leaf("int"))>>)>>)>>)}
